@@ -16,7 +16,7 @@ from fractions import Fraction
 sys.path.insert(0, os.path.dirname(os.path.abspath(__file__)))
 import common
 from common import Check
-from c16 import q, qpt, cb, gen_spec, DEPTH_Z, DEPTH_H
+from c16 import q, qpt, cb, gen_spec, DEPTH_Z, DEPTH_H, gen_straddle_volumes
 
 PID = "C03"
 
@@ -153,6 +153,8 @@ def gen_continuous(rng, idx, n):
                              pos=[round(rng.uniform(-1, 1), 3), round(rng.uniform(-1, 1), 3), zc], rot=[rng.choice([0.0, round(rng.uniform(-3, 3), 3)]), 0.0, 0.0]))
         if rng.random() < 0.7:
             vols.sort(key=lambda v: v["dims"][2])
+        if rng.random() < 0.7:
+            vols = gen_straddle_volumes(rng, kinds=("box",), n=rng.randint(1, 2))
         c["vols"] = vols
         c["ops"] = [rng.choice(["intersect", "difference", "intersects"]) for _ in vols[:-1]] + [rng.choice(["intersect", "intersect", "difference"])]
         c["n"] = min(n, 1500)
@@ -323,6 +325,14 @@ def main():
             set(x) != want for x in ([cfg.get("A")] + cfg.get("regs", []) if cfg.get("A") or cfg.get("regs") else []) if x)
         c.count((cfg["kind"], sorted(want or []), str(cfg.get("A")), str(cfg.get("regs")), str(cfg.get("B"))), nontrivial=nontriv)
         c.cov["traces_validated_against_impl"] += r.get("npaths", 0)
+        if cfg["kind"] in ("ps_inter_region", "region_inter_ps") and want is not None and set(dist) != want:
+            # PointSetRegion.intersect filters its candidates with the region's own containsPoint, which ignores the height of
+            # rectangles / polygons: points over the footprint at another height are returned (when inside the 3-D circumcircle ball)
+            off = {a for a, f, m in zip(cfg["A"], r.get("foot_region", []), r["in_region"]) if f and not m}
+            if want <= set(dist) and set(dist) - want <= off:
+                c.violation("height-membership", f"{cfg['kind']}: sampled points lie over the region's footprint but not at its height",
+                            dict(base, atoms=sorted(set(dist) - want), spec_kind=cfg["spec"]["kind"], result_class=r.get("class")))
+                continue
         # property oracle: membership, support, uniformity (counting measure) conditional on acceptance
         if unknown:
             c.violation("membership", "sampler returned a point that is no point of the operands", dict(base, points=unknown[:3]))
